@@ -27,8 +27,9 @@ var ptrFaultOps, ptrFaultErrs, ptrFaultChanged int
 
 type ptrExec struct {
 	*Session
-	last  string
-	lastK int
+	last     string
+	lastK    int
+	tickSkew int // store loads made by the harness itself (counting runs), unknown to the model
 }
 
 func (p *ptrExec) ModelLine(line string) string {
@@ -62,6 +63,9 @@ func (p *ptrExec) Exec(line string) (obs, viol string) {
 		t = strings.Fields(line)
 	case "pgraph":
 		return p.pgraph(), ""
+	case "ptick":
+		// the number of store loads so far: the model counts them in `PS.tick`
+		return fmt.Sprint(p.Store.TotalLoads - p.tickSkew), ""
 	case "pfail", "pfailr":
 		// pfail <k> <op...>: the k-th store load of the operation fails (1-based); the outcome is
 		// compared through the next pgraph (the model predicts the state an error leaves behind)
@@ -78,6 +82,7 @@ func (p *ptrExec) Exec(line string) (obs, viol string) {
 			if m := p.Trees[slot]; m != nil && p.Cache == nil && (t[2] == "ins" || t[2] == "del" || t[2] == "get" || t[2] == "iter") {
 				var r int
 				fmt.Sscan(t[1], &r)
+				before := p.Store.TotalLoads
 				if c, err := m.Clone(p.ctx); err == nil {
 					saveT, saveO := p.Trees[slot], p.Oracle[slot]
 					p.Trees[slot], p.Oracle[slot] = &c, copyMap(saveO)
@@ -89,6 +94,7 @@ func (p *ptrExec) Exec(line string) (obs, viol string) {
 						k = 1 + r%n
 					}
 				}
+				p.tickSkew += p.Store.TotalLoads - before
 			}
 		}
 		p.lastK = k
@@ -338,7 +344,7 @@ func genPtrCase(r *rand.Rand, cfg Cfg) Case {
 				slots = append(slots, d)
 			}
 		}
-		ops = append(ops, "pgraph")
+		ops = append(ops, "pgraph", "ptick")
 	}
 	if r.Intn(3) != 0 {
 		// last operation of the case: an insert / delete / lookup / iteration / clone / persist whose
@@ -400,7 +406,7 @@ func genPtrCase(r *rand.Rand, cfg Cfg) Case {
 		default:
 			op = pick(r, []string{fmt.Sprintf("clone %d %d", s, r.Intn(5)), fmt.Sprintf("root %d %d", s, nroot)})
 		}
-		ops = append(ops, fmt.Sprintf("pfailr %d %s", r.Intn(1000), op), "pgraph")
+		ops = append(ops, fmt.Sprintf("pfailr %d %s", r.Intn(1000), op), "pgraph", "ptick")
 	}
 	return Case{cfg, ops}
 }
